@@ -11,7 +11,7 @@ import ast
 import itertools
 
 from ..core import Rule, AnalysisError, norm
-from .. import pyfront, pycalls, dtable, cfold, rx
+from .. import pyfront, pycalls, dtable, cfold, rx, pyutil
 
 MR = "python/digital_rf/mirror.py"
 HD = "DigitalRFMirrorHandler"
@@ -40,16 +40,30 @@ def r1_staged_publication(repo=None):
     if len(tmpdef) != 1:
         raise AnalysisError("%s: tmp_dest_path definition not found" % q)
     v = tmpdef[0].value
-    ok = isinstance(v, ast.Call) and pyfront.call_name(v) == "os.path.join" and len(v.args) == 2 and norm(ast.unparse(v.args[0])) == "dest_dir" \
-        and isinstance(v.args[1], ast.BinOp) and isinstance(v.args[1].op, ast.Add) and pyfront.const(v.args[1].left) == "tmp." \
-        and norm(ast.unparse(v.args[1].right)) == "dest_name"
+    prefix = None
+    if isinstance(v, ast.Call) and pyfront.call_name(v) == "os.path.join" and len(v.args) == 2 and isinstance(v.args[1], ast.BinOp) \
+            and isinstance(v.args[1].op, ast.Add):
+        try:
+            prefix = cfold.Folder(repo).expr("mirror", v.args[1].left)
+        except AnalysisError:
+            prefix = None
+    # dest_dir, dest_name = os.path.split(dest_path): the two parts used must be those of one split of the destination path
+    split = [n for n in ast.walk(f) if isinstance(n, ast.Assign) and isinstance(n.value, ast.Call) and pyfront.call_name(n.value) == "os.path.split"
+             and isinstance(n.targets[0], ast.Tuple) and len(n.targets[0].elts) == 2]
+    parts = [norm(ast.unparse(e)) for e in split[0].targets[0].elts] if split else [None, None]
+    ok = prefix == "tmp." and norm(ast.unparse(v.args[0])) == parts[0] and norm(ast.unparse(v.args[1].right)) == parts[1]
     if ok:
-        r.ok("%s:%s %s" % (m.rel, tmpdef[0].lineno, q), "staging path = dest_dir / ('tmp.' + dest_name)")
+        r.ok("%s:%s %s" % (m.rel, tmpdef[0].lineno, q), "staging path = <destination directory> / ('tmp.' + <destination name>)")
     else:
         r.violation(m.rel, q, norm(ast.unparse(tmpdef[0])), "the staging name is not the destination name with the literal prefix `tmp.`: "
                     "readers/listings of the destination could see the partial copy", line=tmpdef[0].lineno)
-    allowed = {("self.mirror_fun", ("src_path", "tmp_dest_path")), ("os.rename", ("tmp_dest_path", "dest_path")),
-               ("os.makedirs", ("dest_dir",)), ("os.rmdir", ("src_dir",))}
+    srcp = f.args.args[1].arg if len(f.args.args) > 1 else "src_path"
+    destp = norm(ast.unparse(split[0].value.args[0])) if split else "dest_path"
+    srcdirs = {norm(ast.unparse(n.targets[0].elts[0])) for n in ast.walk(f) if isinstance(n, ast.Assign) and isinstance(n.value, ast.Call)
+               and pyfront.call_name(n.value) == "os.path.split" and norm(ast.unparse(n.value.args[0])) == srcp
+               and isinstance(n.targets[0], ast.Tuple)}
+    allowed = {("self.mirror_fun", (srcp, "tmp_dest_path")), ("os.rename", ("tmp_dest_path", destp)), ("os.makedirs", (parts[0],))}
+    allowed |= {("os.rmdir", (d_,)) for d_ in srcdirs}
     stage = []
     publish = []
     for n in g.nodes:
@@ -133,10 +147,20 @@ def config_table(repo=None):
     m = pyfront.mod("mirror", repo)
     f = m.fn(MI + ".__init__")
     body = [s for s in f.body if not (isinstance(s, ast.Expr) and isinstance(s.value, ast.Constant))]
+    consts = {}
+    for st in m.tree.body:
+        if isinstance(st, ast.Assign) and isinstance(st.targets[0], ast.Name):
+            v = st.value
+            if isinstance(v, (ast.Tuple, ast.List)) and all(isinstance(e, ast.Constant) for e in v.elts):
+                consts[st.targets[0].id] = [e.value for e in v.elts]
+            elif isinstance(v, ast.Constant):
+                consts[st.targets[0].id] = v.value
+    methods = {k: v for k, v in m.methods(MI).items() if k.startswith("_") and k not in ("__init__", "_init_observer")}
     rows = {}
     for method, idrf, idmd, link in itertools.product(("move", "copy", "link"), (True, False), (True, False), (True, False)):
         it = dtable.Interp({"src": "S", "dest": "D", "method": method, "ignore_existing": False, "link": link, "verbose": False,
-                            "starttime": None, "endtime": None, "include_drf": idrf, "include_dmd": idmd, "force_polling": False})
+                            "starttime": None, "endtime": None, "include_drf": idrf, "include_dmd": idmd, "force_polling": False},
+                           consts=consts, methods=methods)
         it.record = {"DigitalRFMirrorHandler", "ringbuffer.DigitalRFRingbufferHandler"}
         it.run(body, stop_at=lambda s: isinstance(s, ast.Expr) and isinstance(s.value, ast.Call) and pyfront.call_name(s.value) == "self._init_observer")
         rows[(method, idrf, idmd, link)] = (it.built, it.raised, dict(it.env))
@@ -186,9 +210,9 @@ def r3_handler_configuration(repo=None):
             if kw.get("include_drf_properties") is not idrf or kw.get("include_dmd_properties") is not idmd or kw.get("include_dmd") is not idmd:
                 probs.append("properties/metadata of the included kinds are not copied (copy handler flags %s)" % {
                     k: v for k, v in kw.items() if k.startswith("include")})
-            if fun(kw) not in ("shutil.copy2", "LinkWithFallback()", "copylike_mirror_fun"):
+            if fun(kw) not in ("shutil.copy2", "LinkWithFallback()", "_LinkWithFallback()", "copylike_mirror_fun"):
                 probs.append("copy handler uses %s (expected shutil.copy2 or the hard-link-with-fallback function)" % fun(kw))
-            if fun(kw) == "LinkWithFallback()" and env.get("self.link") is not True:
+            if str(fun(kw)).endswith("LinkWithFallback()") and env.get("self.link") is not True:
                 probs.append("hard links used although link mode is off")
         if eff_method == "move" and idmd:
             if len(rb) != 1 or rb[0][1].get("count") != 1 or rb[0][1].get("include_drf") is not False or rb[0][1].get("include_dmd") is not True \
@@ -217,28 +241,55 @@ def r4_replay_existing(repo=None):
     m = pyfront.mod("mirror", repo)
     q = MI + ".start"
     f = m.fn(q)
-    src = norm(ast.unparse(f))
-    loop_ok = "for p in paths: event = FileCreatedEvent(p) for handler in self.event_handlers: handler.dispatch(event, match_time=False)" in src
+    scope = [f] + [h for h, c, b in pyutil.local_helpers(m, f, depth=1)]
+    # a loop over self.event_handlers that dispatches a FileCreatedEvent with match_time=False
+    disp = []
+    for fn in scope:
+        for lp in [n for n in ast.walk(fn) if isinstance(n, ast.For) and norm(ast.unparse(n.iter)) == "self.event_handlers"]:
+            for c in ast.walk(lp):
+                if isinstance(c, ast.Call) and isinstance(c.func, ast.Attribute) and c.func.attr == "dispatch" \
+                        and isinstance(c.func.value, ast.Name) and isinstance(lp.target, ast.Name) and c.func.value.id == lp.target.id:
+                    disp.append((fn, lp, c))
+    created = any(isinstance(c, ast.Call) and pyfront.call_name(c) == "FileCreatedEvent" for fn in scope for c in ast.walk(fn))
+    if not disp or not created:
+        raise AnalysisError("%s: replay of existing files (loop over self.event_handlers dispatching a FileCreatedEvent) not recognised" % q)
+    for fn, lp, c in disp:
+        mt = pyfront.kwarg(c, "match_time")
+        if pyfront.const(mt) is False:
+            r.ok("%s:%s %s" % (m.rel, c.lineno, m.qualname_of(c)), "every handler receives the created event with match_time=False (the "
+                 "listing already applied the window, including the forward-fill file)")
+        else:
+            r.violation(m.rel, m.qualname_of(c), norm(ast.unparse(c)), "replayed events are filtered by time again: the forward-fill metadata "
+                        "file that the listing selected (older than the start time) would be dropped", line=c.lineno)
     calls = [c for c in ast.walk(f) if isinstance(c, ast.Call) and pyfront.call_name(c) == "list_drf.ilsdrf"]
     kinds_ok = False
+    props_ok = False
     for c in calls:
         kw = {k.arg: norm(ast.unparse(k.value)) for k in c.keywords}
         if kw.get("include_drf") == "self.include_drf" and kw.get("include_dmd") == "self.include_dmd" and kw.get("starttime") == "self.starttime" \
                 and kw.get("endtime") == "self.endtime":
             kinds_ok = True
-    props_ok = any({k.arg: norm(ast.unparse(k.value)) for k in c.keywords}.get("include_drf_properties") == "self.include_drf" for c in calls)
-    if loop_ok and kinds_ok and props_ok:
-        r.ok("%s:%s %s" % (m.rel, f.lineno, q), "existing properties and data files (same kinds and window) are dispatched as created events "
-             "to every handler")
+        if kw.get("include_drf_properties") == "self.include_drf" and kw.get("include_dmd_properties") == "self.include_dmd":
+            props_ok = True
+    if len(calls) < 2:
+        raise AnalysisError("%s: expected two list_drf.ilsdrf calls (properties, data), found %d" % (q, len(calls)))
+    if kinds_ok and props_ok:
+        r.ok("%s:%s %s" % (m.rel, f.lineno, q), "existing properties files and data files of the same kinds and window are listed for replay")
     else:
-        r.violation(m.rel, q, "replay of existing files (loop=%s kinds=%s props=%s)" % (loop_ok, kinds_ok, props_ok),
-                    "files that existed before the mirror started are not mirrored like new ones", line=f.lineno)
-    obs = norm(ast.unparse(m.fn(MI + "._init_observer")))
-    if "for handler in self.event_handlers: self.observer.schedule(handler, self.src, recursive=True)" in obs:
+        r.violation(m.rel, q, "listing for replay (data kinds/window ok=%s, properties ok=%s)" % (kinds_ok, props_ok),
+                    "files that existed before the mirror started are not selected with the mirror's own kinds and window", line=f.lineno)
+    io = m.fn(MI + "._init_observer")
+    sched = [c for lp in ast.walk(io) if isinstance(lp, ast.For) and norm(ast.unparse(lp.iter)) == "self.event_handlers"
+             for c in ast.walk(lp) if isinstance(c, ast.Call) and isinstance(c.func, ast.Attribute) and c.func.attr == "schedule"
+             and c.args and isinstance(c.args[0], ast.Name) and isinstance(lp.target, ast.Name) and c.args[0].id == lp.target.id]
+    if sched and pyfront.const(pyfront.kwarg(sched[0], "recursive")) is True and len(sched[0].args) >= 2 and norm(ast.unparse(sched[0].args[1])) == "self.src":
         r.ok("%s %s._init_observer" % (m.rel, MI), "every handler is scheduled recursively on the source tree")
+    elif not sched:
+        raise AnalysisError("%s._init_observer: scheduling loop over self.event_handlers not recognised" % MI)
     else:
-        r.violation(m.rel, MI + "._init_observer", "handler scheduling", "a handler is not attached to the source tree", line=m.fn(MI + "._init_observer").lineno)
-    r.guard(2)
+        r.violation(m.rel, MI + "._init_observer", norm(ast.unparse(sched[0])), "a handler is not attached recursively to the source tree",
+                    line=sched[0].lineno)
+    r.guard(3)
     return r
 
 
